@@ -200,6 +200,7 @@ def sim_reads(n, caps, bufsize=BIG):
 
 class MiscProp(Prop):
     """base: bookkeeping helpers; subclasses implement run(ctx)"""
+    run_modules = ("Run/RunLib.v", "Run/RunMisc.v")   # COQ_HEADER
 
     def explore(self, ctx):
         self.run(ctx)
@@ -1805,6 +1806,7 @@ def c11_measured_run(argv, env, as_limit_kib=0, timeout=120):
 
 
 class C11(MiscProp):
+    run_modules = MiscProp.run_modules + ('Model/Chunks.v', 'Model/Monitors.v')
     id = "C11"
     rule = ("measurement: the library encrypts a generator stream (never materialised) into a counting sink, and decrypts a "
             "temporary file produced by the library itself from a BufReader<File> into a counting sink, under a counting global "
@@ -2072,6 +2074,8 @@ class C11(MiscProp):
                 with open(os.path.join(wd, "plain_%s.bin" % name), "wb") as f:
                     f.write(data[:n])
             P = lambda x: os.path.join(wd, x)
+            # what /dev/stdin is (a link to /proc/self/fd/0), made inside the scratch directory: the program under test never gets /dev itself
+            DEVSTDIN = vlib.private_special(wd, "stdin") or "/proc/self/fd/0"
             enc_need = lambda w, cap: w - cap - 2 * BIG
             dec_need = lambda w, cap: w - cap - 2 * BIG - 132 - 32 * (w // BIG + 2)
             envp, envs, envr = {"KESTREL_PASSWORD": "stream pw"}, {"KESTREL_PASSWORD": "pw-s"}, {"KESTREL_PASSWORD": "pw-r"}
@@ -2086,7 +2090,7 @@ class C11(MiscProp):
                  "env": envs, "how": "fifo", "fifo": P("fifo_key"), "out": P("o_fifo_key.bin"), "need": enc_need, "dir": "enc"},
                 {"label": "password encrypt (stdin)", "argv": ["password", "encrypt", "-o", P("o_stdin_pass.bin"), "--env-pass"],
                  "env": envp, "how": "stdin", "out": P("o_stdin_pass.bin"), "need": enc_need, "dir": "enc"},
-                {"label": "encrypt /dev/stdin", "argv": ["encrypt", "/dev/stdin", "-o", P("o_devstdin_key.bin")] + keyargs,
+                {"label": "encrypt /dev/stdin", "argv": ["encrypt", DEVSTDIN, "-o", P("o_devstdin_key.bin")] + keyargs,
                  "env": envs, "how": "stdin", "out": P("o_devstdin_key.bin"), "need": enc_need, "dir": "enc"},
             ]
             feeds.append({"label": "password encrypt (stdin -> stdout)", "argv": ["password", "encrypt", "--env-pass"],
@@ -2105,7 +2109,7 @@ class C11(MiscProp):
                  "env": envp, "how": "stdin", "out": P("ox_stdin_pass.bin"), "need": enc_need, "dir": "enc"},
                 {"label": "encrypt <FIFO> -o <existing %s>" % "symlink to a file", "argv": ["encrypt", P("fifo_key_ex"), "-o", pre("ox_fifo_key.bin", "symlink")] + keyargs,
                  "env": envs, "how": "fifo", "fifo": P("fifo_key_ex"), "out": P("ox_fifo_key.bin"), "need": enc_need, "dir": "enc"},
-                {"label": "password encrypt /dev/stdin -o <existing empty file>", "argv": ["password", "encrypt", "/dev/stdin", "-o", pre("ox_devstdin_pass.bin", "empty"), "--env-pass"],
+                {"label": "password encrypt /dev/stdin -o <existing empty file>", "argv": ["password", "encrypt", DEVSTDIN, "-o", pre("ox_devstdin_pass.bin", "empty"), "--env-pass"],
                  "env": envp, "how": "stdin", "out": P("ox_devstdin_pass.bin"), "need": enc_need, "dir": "enc"},
             ]
             for j in feeds:
@@ -2131,9 +2135,9 @@ class C11(MiscProp):
                 ctp, ctk = open(P("ct_pass_hi.bin"), "rb").read(), open(P("ct_key_hi.bin"), "rb").read()
                 dmarks = lambda ct: [LO, len(ct) - BIG]
                 feeds2 = [
-                    {"label": "password decrypt /dev/stdin", "argv": ["password", "decrypt", "/dev/stdin", "-o", P("d_devstdin_pass.bin"), "--env-pass"],
+                    {"label": "password decrypt /dev/stdin", "argv": ["password", "decrypt", DEVSTDIN, "-o", P("d_devstdin_pass.bin"), "--env-pass"],
                      "env": envp, "how": "stdin", "out": P("d_devstdin_pass.bin"), "need": dec_need, "dir": "dec", "data": ctp, "marks": dmarks(ctp)},
-                    {"label": "decrypt /dev/stdin", "argv": ["decrypt", "/dev/stdin", "-t", "stream-recipient", "-o", P("d_devstdin_key.bin"), "-k", kr, "--env-pass"],
+                    {"label": "decrypt /dev/stdin", "argv": ["decrypt", DEVSTDIN, "-t", "stream-recipient", "-o", P("d_devstdin_key.bin"), "-k", kr, "--env-pass"],
                      "env": envr, "how": "stdin", "out": P("d_devstdin_key.bin"), "need": dec_need, "dir": "dec", "data": ctk, "marks": dmarks(ctk)},
                     {"label": "password decrypt (stdin)", "argv": ["password", "decrypt", "-o", P("d_stdin_pass.bin"), "--env-pass"],
                      "env": envp, "how": "stdin", "out": P("d_stdin_pass.bin"), "need": dec_need, "dir": "dec", "data": ctp, "marks": dmarks(ctp)},
@@ -2145,7 +2149,7 @@ class C11(MiscProp):
                      "env": envp, "how": "stdin", "out": None, "need": dec_need, "dir": "dec", "data": ctp, "marks": fmarks(ctp)},
                     {"label": "decrypt (stdin -> stdout)", "argv": ["decrypt", "-t", "stream-recipient", "-k", kr, "--env-pass"],
                      "env": envr, "how": "stdin", "out": None, "need": dec_need, "dir": "dec", "data": ctk, "marks": fmarks(ctk)},
-                    {"label": "decrypt /dev/stdin -> stdout", "argv": ["decrypt", "/dev/stdin", "-t", "stream-recipient", "-k", kr, "--env-pass"],
+                    {"label": "decrypt /dev/stdin -> stdout", "argv": ["decrypt", DEVSTDIN, "-t", "stream-recipient", "-k", kr, "--env-pass"],
                      "env": envr, "how": "stdin", "out": None, "need": dec_need, "dir": "dec", "data": ctk, "marks": fmarks(ctk)},
                 ]
                 os.mkfifo(P("fifo_dec"))
@@ -2154,7 +2158,7 @@ class C11(MiscProp):
                 feeds2 += [
                     {"label": "password decrypt (stdin) -o <existing file>", "argv": ["password", "decrypt", "-o", pre("dx_stdin_pass.bin", "file"), "--env-pass"],
                      "env": envp, "how": "stdin", "out": P("dx_stdin_pass.bin"), "need": dec_need, "dir": "dec", "data": ctp, "marks": dmarks(ctp)},
-                    {"label": "decrypt /dev/stdin -o <existing %s>" % "empty file", "argv": ["decrypt", "/dev/stdin", "-t", "stream-recipient", "-o", pre("dx_devstdin_key.bin", "empty"), "-k", kr, "--env-pass"],
+                    {"label": "decrypt /dev/stdin -o <existing %s>" % "empty file", "argv": ["decrypt", DEVSTDIN, "-t", "stream-recipient", "-o", pre("dx_devstdin_key.bin", "empty"), "-k", kr, "--env-pass"],
                      "env": envr, "how": "stdin", "out": P("dx_devstdin_key.bin"), "need": dec_need, "dir": "dec", "data": ctk, "marks": dmarks(ctk)},
                 ]
                 files2.append({"label": "password decrypt <regular file hi> -o <existing file>", "size": "hi-existing", "grp": "pass-dec",
@@ -2525,6 +2529,7 @@ Definition seq_eqb (a b : list bytes) : bool := list_eqb (list_eqb N.eqb) a b.
 
 
 class C18(MiscProp):
+    run_modules = MiscProp.run_modules + ('Spec/Salsa.v', 'Spec/Scrypt.v', 'Spec/Pbkdf2.v', 'Spec/ScryptConcrete.v', 'Spec/Hex.v', 'Model/ScryptImpl.v', 'Model/ScryptFfi.v')
     id = "C18"
     rule = ("library: scrypt(pw, salt, N, r, p, dkLen) for the full grid N in {2,4,..,1024} x r in 1..4 x p in 1..3 x dkLen in "
             "{1,16,31,32,33,64,100,200} (thorough: N up to 2^15, r up to 16, p up to 8; full grid below N = 2048, random sample above), "
@@ -3225,6 +3230,7 @@ def zp_model(c, n, total):
 
 
 class C20(MiscProp):
+    run_modules = MiscProp.run_modules + ('Model/Zeroize.v',)
     id = "C20"
     rule = ("histories over a list of live key containers in the driver (np = PrivateKey::try_from, ng = PrivateKey::generate with "
             "and without an installed random stream, nk = boxed PayloadKey::new, c<i> = clone, f<i>:<j> = container i .clone_from(container j) (for the boxed PayloadKey on "
